@@ -113,7 +113,7 @@ def obj_spec(draw):
 @st.composite
 def step(draw):
     # in-place edits and observations carry most of the weight: a stale value needs call -> edit -> observe on one object
-    kind = draw(st.sampled_from(["call", "call", "call", "set_efth", "set_efth", "set_dir", "set_dir", "set_freq", "set_freq", "partition_other", "bad_stat", "attr_lookup", "reader", "file_roundtrip",
+    kind = draw(st.sampled_from(["call", "call", "call", "set_efth", "set_efth", "set_dir", "set_dir", "set_freq", "set_freq", "partition_other", "partition_other", "bad_stat", "attr_lookup", "reader", "file_roundtrip",
                                  "fit", "observe", "observe", "observe", "observe", "observe"]))
     s = dict(kind=kind, obj=draw(st.integers(0, 2)), via=draw(st.sampled_from(["dataset", "array"])))
     if kind in ("call", "observe"):
@@ -341,6 +341,7 @@ def check_history(case, ctx):
             a = gen.build_spectrum(s["spec"], s["shape"][0], s["shape"][1], dtype=np.float32)
             specpart.partition(a, s["ihmax"])
             shapes_seen.add(tuple(s["shape"]))
+            suspicious = max(suspicious, 3)  # whatever the routine keeps between calls is process-wide: only the pristine process can tell
         elif k == "bad_stat":
             try:
                 L.efth().spec.stats(["hs", "nosuch"])
